@@ -1,3 +1,4 @@
+(* C05 - Inv is inductive; mutual exclusion, single owner, payload visibility, CAS only on a free lock *)
 From Coq Require Import List Arith Bool Lia.
 Import ListNotations.
 Require Import MayV.Sync.MutexModel MayV.Sync.MutexInv MayV.Sync.MutexPresG MayV.Sync.MutexPresA MayV.Sync.MutexPresO MayV.Sync.MutexPresB.
